@@ -336,9 +336,13 @@ class Check:
             json.dump(ev, fh, indent=1)
         for sig, what in self.known_hits:
             log(f"KNOWN-FINDING: property={self.pid} {what} [{sig}]")
-        for sig, what, path in self.violations:
+        for n, (sig, what, path) in enumerate(self.violations):
             log(f"VIOLATION property={self.pid} replay={path}")
-            log(f"  {sig}: {what}")
+            log(f"  {sig}: {what[:1500]}")
+            if n >= 11 and len(self.violations) > 12:
+                log(f"  ... and {len(self.violations) - 12} more distinct discrepancies (replay files "
+                    f"under {self.replays})")
+                break
         if self.violations:
             return 1
         log(f"OK property={self.pid} tier={self.tier} wall={wall:.1f}s")
